@@ -1,5 +1,6 @@
 import AmVerif.Lemmas.Map
 import AmVerif.Lemmas.World
+import AmVerif.Gen.Skel
 /-!
 # C02 — the cache is a faithful map keyed by (id, type), for every front-end
 -/
@@ -42,6 +43,14 @@ theorem C02_shard_count_pos (n : Nat) : 0 < shardCount n ∧ 0 < shardCountFallb
   · have := nextPow2Aux_ge n 1 n
     simp only [shardCount, nextPow2]; omega
   · decide
+
+/-- The model's keep-first `insert` is what the code does: both maps insert with
+`entry(key).or_insert(entry)` inside one exclusive scope (regenerated effect skeletons). -/
+theorem C02_insert_is_or_insert :
+    skel_cache_AssetMap_for_AssetMap_insert = [.call .s_get_shard, .acq .s_write 0, .call .s_entry, .call .s_or_insert, .rel 0] ∧
+    skel_local_cache_AssetMap_for_AssetMap_insert = [.acq .s_borrow_mut 0, .call .s_entry, .call .s_or_insert, .rel 0] ∧
+    skel_cache_AssetMap_take = [.call .s_get_shard_mut, .call .s_get_mut, .call .s_remove] ∧
+    skel_cache_AssetMap_clear = [.loop [.call .s_get_mut, .call .s_clear]] := ⟨rfl, rfl, rfl, rfl⟩
 
 /-! ## The abstract map has the one-line meaning of each operation -/
 
